@@ -1,10 +1,12 @@
 """C07 — frame sequences against both endpoints (Model/Dispatch.v, Model/Uuid.v)."""
 RULE = ("(i) call-id strings (all UUID versions, the four accepted shapes, case flips, off-by-one lengths, non-hex, random bytes) through "
         "Server.validateMessageRequest vs Uuid.is_v4; (ii) frame sequences (valid/invalid requests, responses to pending/unknown/duplicate ids, "
-        "empty envelope, garbage, foreign-encoder frames, mutations) fed one frame at a time to a Server and a ClientConn over fake transports, "
-        "with and without a registered service, each batch in a child process; per frame the handler log, the frames written and the pending "
-        "table are compared with Dispatch.process; distinct = distinct (role, class, frame, pending size)")
-ASSUMPTIONS = ["quiescence after a frame is detected by the goroutine count returning to its baseline (1.5 s limit)"]
+        "empty envelope, garbage, foreign-encoder frames, mutations, complete valid requests/responses followed by a malformed rest) fed one frame "
+        "at a time to a Server and a ClientConn over fake transports, with and without a registered service, each batch in a child process; per "
+        "frame the handler log, the frames written and the pending table are compared with Dispatch.process, and a frame that is not well-formed "
+        "wire data must have no effect at all; after the sequence a valid call must be served and closing the endpoint (ClientConn.Close / "
+        "Server.Stop) must return within 4 s; distinct = distinct (role, class, frame, pending size)")
+ASSUMPTIONS = ["quiescence after a frame = the read loop has taken the next (barrier, undecodable) frame and the goroutine count is back at its baseline (1.5 s limit)"]
 FILES = ["root/fake_test.go", "root/c16_test.go", "root/c07_test.go"]
 
 
